@@ -304,7 +304,7 @@ def raw_cases(ctx, replay):
     else:
         cases = [[("start", [(1.0, 0), (2.0, 1), (3.0, 2)]), ("emit", 0, 1), ("fetch", [0]), ("stop", 0, 0), ("emit", 0, 1),
                   ("fetch", [0]), ("emit", 0, 1), ("fetch", [0]), ("fetch", [0]), ("fetch", [0]), "ASYNC"]]
-        for _ in range(ctx.n(900, 12000)):
+        for _ in range(ctx.n(700, 12000)):
             a = 2 if rng.random() < 0.12 else 0
             cases.append(gen_raw_ops(rng, async_stop=a) + (["ASYNC"] if a else []))
     terms, meta = [], []
@@ -751,7 +751,7 @@ def tuner_cases(ctx, replay, sim):
             return
         cases = [replay]
     else:
-        cases = [gen_tuner_case(rng, sim) for _ in range(ctx.n(400 if sim else 600, 6000 if sim else 9000))]
+        cases = [gen_tuner_case(rng, sim) for _ in range(ctx.n(300 if sim else 450, 6000 if sim else 9000))]
     runner = run_tuner_sim if sim else run_tuner_generic
     terms, meta = [], []
     for case in cases:
